@@ -213,6 +213,27 @@ def r9_line_base(ctx):
                               "%s shifts an already converted (0-based) line at %s: the position leaves the line of the token -- one "
                               "past the last line of a document without a trailing newline is outside the document" % (f.id, crate.span_str(sp)))
     r.floor("uses of the line converter", m, 5)
+    # a recorded 1-based line is not used as a 0-based index into the lines of a text (`lines.get(def.end_line)` looks at the
+    # line AFTER the fixture)
+    k = 0
+    for f in crate.real_fns():
+        for bb, c in f.calls():
+            res = (c.get("res") or "") + " " + (c.get("fn") or "")
+            ta = " ".join(c.get("targs", []))
+            is_lines = ("&str" in ta and re.search(r"<impl \[T\]>::get$|ops::Index<.*>>::index$|Vec::<T, A>::get$", res)) or \
+                ("std::str::Lines" in ta and re.search(r"Iterator::nth$", res))
+            if not is_lines or len(c["args"]) < 2 or c["span"][4].startswith("macro:"):
+                continue
+            k += 1
+            for t in og.of_operand(f, c["args"][1]):
+                fields = t[3] if len(t) > 3 and isinstance(t[3], tuple) else ()
+                named = [(o, nm) for o, nm in fields if not o.startswith(("std::", "tuple", "closure:", "core::"))]
+                if named and named[-1][1] in LINE_FIELDS and not named[-1][0].endswith(("::Position", "::Range")):
+                    r.violate("R9c|%s|%s.%s indexes lines" % (f.root, named[-1][0].split("::")[-1], named[-1][1]),
+                              "%s indexes the lines of a text with the recorded 1-based `%s` at %s without subtracting one: it reads the "
+                              "line after the one meant" % (f.root.split("::")[-1], named[-1][1], crate.span_str(c["span"])))
+                    break
+    r.counts["line_lookups"] = k
     return r
 
 
